@@ -9,7 +9,7 @@
    does not support it (len(None): TypeError ..).  The one thing the grammar cannot express - the characters
    of a str candidate (len / iteration / indexing of a str) - is the distinguished result [PyUnmodelled], which
    [res_kind] maps to no model result at all: a tie lemma cannot hold on a path that reaches it (fail closed). *)
-From Coq Require Import ZArith QArith List Bool.
+From Coq Require Import ZArith QArith Qround List Bool.
 From VL Require Import Model.Validate.
 Import ListNotations.
 
@@ -97,6 +97,18 @@ Definition py_ge := py_cmp (fun x y => Qle_bool y x).
 Definition py_le := py_cmp (fun x y => Qle_bool x y).
 Definition py_gt := py_cmp (fun x y => negb (Qle_bool x y)).
 Definition py_lt := py_cmp (fun x y => negb (Qle_bool y x)).
+(* round(x, k) for k >= 0 (int.__round__ / Fraction.__round__): to the nearest multiple of 10^-k, a tie to the even one *)
+Definition py_round (v : pyobj) (k : Z) : pyobj + pyvexn :=
+  match num_of v with
+  | None => inr PyTypeError
+  | Some x =>
+      let s := inject_Z (10 ^ k) in
+      let y := Qmult x s in
+      let fl := Qfloor y in
+      let d := Qminus y (inject_Z fl) in
+      let r := if Qle_bool d (1 # 2) then (if Qeq_bool d (1 # 2) then (if Z.even fl then fl else fl + 1) else fl) else fl + 1 in
+      inl (py_num (Qred (Qdiv (inject_Z r) s)))
+  end%Z.
 Definition py_is_none {A : Type} (o : option A) : bool := match o with None => true | Some _ => false end.
 Definition py_truthy_optnum (o : option Q) : bool := match o with None => false | Some q => negb (Qeq_bool q 0) end.
 
@@ -137,6 +149,10 @@ Example py_sum_ex : py_sum [ONum 1 2; ONum 1 2] = inl (ONum 4 4) /\ py_sum [py_i
 Proof. repeat split. Qed.
 Example py_cmp_ex : py_ge (py_int 1) (Some 1%Q) = inl true /\ py_ge ONone (Some 1%Q) = inr PyTypeError
   /\ py_gt (py_int 1) (Some 1%Q) = inl false /\ py_le (py_int 1) None = inr PyTypeError.
+Proof. repeat split. Qed.
+Example py_round_ex : py_round (ONum 5 4) 1 = inl (ONum 6 5) /\ py_round (ONum 7 4) 1 = inl (ONum 9 5)      (* 1.25 -> 1.2, 1.75 -> 1.8 *)
+  /\ py_round (ONum (-5) 4) 1 = inl (ONum (-6) 5) /\ py_round (py_int 3) 9 = inl (py_int 3)
+  /\ py_round (ONum 1 3) 2 = inl (ONum 33 100) /\ py_round ONone 2 = inr PyTypeError.
 Proof. repeat split. Qed.
 Example py_set_ex : py_set_add [ONone] (OTuple [OList []]) = inr PyTypeError
   /\ py_set_add [ONone] ONone = inl [ONone] /\ py_frozenset [py_int 1; ONone; py_int 1] = inl [py_int 1; ONone].
